@@ -159,6 +159,18 @@ class Session:
             self.r.trace.append(f"   raised {type(e).__name__}: {str(e)[:120]}")
             return "err rejected", None
 
+    def when(self, t):
+        """the instant `t` as the datetime handed to the broker: naive (the library's convention) or, in `tz_mode`,
+        timezone-aware with a UTC offset that changes from call to call (the same instants, written differently)"""
+        d = from_us(t)
+        if not self.case.get("tz_mode"):
+            return d
+        import datetime as _dt
+        self._tzn = getattr(self, "_tzn", 0) + 1
+        off = [0, 5, -3, 1, 9, -8][self._tzn % 6] if self.case["tz_mode"] == "mixed" else 0
+        tz = _dt.timezone(_dt.timedelta(hours=off))
+        return d.replace(tzinfo=_dt.timezone.utc).astimezone(tz)
+
     def emit_state(self, compare=True):
         cash, pos, mar = self.state()
         s = f"{fr(cash)} pos={kv(pos)} margin={kv(mar)}"
@@ -268,23 +280,57 @@ class Session:
             o["status"] = st
         elif kind == "accrue":
             _, t, flag = op
-            st, v = self.call(lambda: self.broker.accrued_interest(from_us(t), bool(flag)))
+            st, v = self.call(lambda: self.broker.accrued_interest(self.when(t), bool(flag)))
             r.op(f"accrue {t} {int(flag)}", fr(v) if st == "ok" else st, self.tol())
             if st == "ok" and flag:
                 self.lint += F(v)
             o.update(status=st, amount=F(v) if st == "ok" else None)
         elif kind == "rebal":
-            _, t, bw, ab, frac, mg, tgt = op
+            _, t, bw, ab, frac, mg, tgt = op[:7]
+            preview = op[7] if len(op) > 7 else None
             keys = list(tgt)
             objs = [self.cash_c if k == "USD" else self.objs[k] for k in keys]
             vals = [float(Fraction(tgt[k])) for k in keys]
             fmg = float(Fraction(mg))
+            probe_trades = ...
+            if self.case.get("probe_make_trades"):
+                # `Rebalancing.make_trades(broker)` is also a public entry point: it computes the trades of a request
+                # without executing anything. The account is valued first (so that the marking it triggers is a
+                # no-op), then probed: positions, balances and the track record must be untouched, and the list must be
+                # the one the rebalance then executes (no interest accrues in these cases).
+                self.do(["nlv", 0])
+                snap = (self.state(), len(self.broker.track_record))
+                try:
+                    probe = Rebalancing(contracts=objs, allocation=vals, measure="weight" if bw else "nr-contracts",
+                                        absolute=bool(ab), fractional=bool(frac), margin=fmg, time=self.when(t))
+                    probe_trades = [(self.sym(tr_.contract), F(tr_.quantity)) for tr_ in probe.make_trades(self.broker)]
+                except Exception:  # noqa  (a request the library refuses: the rebalance below is refused too)
+                    probe_trades = None
+                if (self.state(), len(self.broker.track_record)) != snap:
+                    r.fail("make-trades-side-effect", clause="make_trades computes, it does not execute",
+                           before=str(snap)[:200], after=str((self.state(), len(self.broker.track_record)))[:200])
             n_before = len(self.broker.track_record)
             pos_before = dict(self.state()[1])
 
+            previewed = None
+            if preview is not None:
+                # the request object is previewed (`make_trades`, as the docstring of Broker.rebalance advertises), the
+                # market then moves, and the *same* object is executed: the trades must be those of the moment of execution
+                try:
+                    previewed = Rebalancing(contracts=objs, allocation=vals, measure="weight" if bw else "nr-contracts",
+                                            absolute=bool(ab), fractional=bool(frac), margin=fmg, time=self.when(t))
+                    self.do(["nlv", 0])
+                    previewed.make_trades(self.broker)
+                except Exception:  # noqa
+                    previewed = None
+                self.do(preview)
+                n_before = len(self.broker.track_record)
+                pos_before = dict(self.state()[1])
+
             def go():
-                reb = Rebalancing(contracts=objs, allocation=vals, measure="weight" if bw else "nr-contracts",
-                                  absolute=bool(ab), fractional=bool(frac), margin=fmg, time=from_us(t))
+                reb = previewed if previewed is not None else Rebalancing(
+                    contracts=objs, allocation=vals, measure="weight" if bw else "nr-contracts",
+                    absolute=bool(ab), fractional=bool(frac), margin=fmg, time=self.when(t))
                 self._reb = reb
                 self.broker.rebalance(reb)
                 return reb
@@ -314,6 +360,12 @@ class Session:
             else:
                 r.op(line.strip(), st)
             r.op("nrec", str(len(self.broker.track_record)))
+            if probe_trades is not ...:
+                executed_list = [(self.sym(tr_.contract), F(tr_.quantity)) for tr_ in reb.trades] if st == "ok" else None
+                if (probe_trades is None) != (executed_list is None) or (
+                        probe_trades is not None and sorted(probe_trades) != sorted(executed_list)):
+                    r.fail("make-trades-differs-from-rebalance", probed=str(probe_trades)[:300], executed=str(executed_list)[:300],
+                           clause="Rebalancing.make_trades(broker) / Rebalancing.trades")
             if st == "ok":
                 tl = sorted((self.sym(tr.contract), fr(tr.quantity), fr(tr.acq_price)) for tr in reb.trades)
                 r.op("lasttrades", ",".join(":".join(x) for x in tl) if tl else "-")
@@ -389,7 +441,14 @@ def gen_price(rng, exact, base=None):
     return base, F(float(bid)), F(float(ask))
 
 
-def gen_history(rng, tier="quick", exact=None, allow=None, fees=None, nmax=None):
+HISTORY_RULE = (" Histories also contain: several operations with one timestamp (quote, valuation, quote with the same stamp); "
+                "price moves of a few parts per million; one-sided books that still quote the side needed to liquidate the "
+                "position held; trades of a few 1e-8 contracts on top of a known position; Broker.context() snapshots; "
+                "requests previewed with make_trades(), a quote move, then the same request object executed; histories in "
+                "which the epsilon snap fires on more than rounding dust are skipped and counted (K1).")
+
+
+def gen_history(rng, tier="quick", exact=None, allow=None, fees=None, nmax=None, one_sided=True):
     """A broker history. `allow` restricts op kinds."""
     exact = rng.random() < 0.35 if exact is None else exact
     contracts = gen_contracts(rng, exact)
@@ -406,6 +465,7 @@ def gen_history(rng, tier="quick", exact=None, allow=None, fees=None, nmax=None)
     n = rng.randint(4, nmax or (40 if tier == "quick" else 110))
     forced = ["open", "add", "reduce", "close", "flip"]
     rng.shuffle(forced)
+    trusted = True       # does `pos` still track the real positions? (not after a rebalance)
     for i in range(n):
         # several operations often share one timestamp (quotes of one bar, a valuation between two of them)
         t += rng.choice([0, 0, 0, 1_000_000, 3600_000_000, DAY, 3 * DAY, 30 * DAY])
@@ -419,8 +479,21 @@ def gen_history(rng, tier="quick", exact=None, allow=None, fees=None, nmax=None)
                 ops.append(["nlv", rng.choice([0, 0, 1])] if rng.random() < 0.8 else ["weights"])
             continue
         if u < 0.25 and "q" in allow:
+            old_mid = mids[k]
             mids[k], b, a = gen_price(rng, exact, mids[k])
-            ops.append(["q", k, t, fr(b), fr(a)])
+            shape = rng.random()
+            if shape < 0.10 and not exact:
+                # a tiny move (a tick on a large price): one to nine parts per million of the previous mid
+                mids[k] = old_mid * (1 + Fraction(rng.choice([-9, -5, -1, 1, 5, 9]), 10**6))
+                half = mids[k] * Fraction(rng.choice([0, 1, 5]), 10000)
+                b, a = F(float(mids[k] - half)), F(float(mids[k] + half))
+                ops.append(["q", k, t, fr(b), fr(a)])
+            elif shape < 0.16 and pos.get(k, 0) != 0 and one_sided:
+                # a one-sided book: the side needed to liquidate the position held is still quoted, the other is not
+                ops.append(["q", k, t, fr(b), "nan"] if pos[k] > 0 else ["q", k, t, "nan", fr(a)])
+                ops.append(rng.choice([["nlv", 0], ["weights"], ["markall"], ["mark", k], ["nlv", 0]]))
+            else:
+                ops.append(["q", k, t, fr(b), fr(a)])
         elif u < 0.55 and ("tradeq" in allow or "trade" in allow):
             want = forced.pop() if forced and rng.random() < 0.5 else rng.choice(["open", "add", "reduce", "close", "flip"])
             cur = pos[k]
@@ -438,6 +511,10 @@ def gen_history(rng, tier="quick", exact=None, allow=None, fees=None, nmax=None)
                 q = -cur - side * unit
             if q == 0:
                 q = Fraction(side)
+            if abs(cur) >= 1 and trusted and not exact and rng.random() < 0.04:
+                # a trade of a few hundred-millionths of a contract on top of an existing position (what a fully
+                # invested account sells to pay a ticket fee on an expensive instrument)
+                q = Fraction(rng.choice([-9, -5, -2, 2, 5, 9]), 10**8)
             pos[k] += q
             if "trade" in allow and rng.random() < 0.15:
                 # explicit (possibly off-market) execution prices
@@ -462,9 +539,15 @@ def gen_history(rng, tier="quick", exact=None, allow=None, fees=None, nmax=None)
             for kk in rng.sample(keys, rng.randint(0, len(keys))):
                 tgt[kk] = fr(Fraction(rng.randint(-12, 12), 8) if exact else F(round(rng.uniform(-1.2, 1.2), 3)))
             t += 1  # distinct record timestamps
-            ops.append(["rebal", t, 1, 1, 1, "0", tgt])
+            if rng.random() < 0.2 and "q" in allow and keys:
+                kq = rng.choice(keys)
+                mids[kq], b, a = gen_price(rng, exact, mids[kq])
+                ops.append(["rebal", t, 1, 1, 1, "0", tgt, ["q", kq, t, fr(b), fr(a)]])
+            else:
+                ops.append(["rebal", t, 1, 1, 1, "0", tgt])
             for kk in keys:
                 pos[kk] = Fraction(1)  # unknown afterwards; only used to steer trade kinds
+            trusted = False
         else:
             ops.append(["nlv", 0])
     ops.append(["nlv", 0])
